@@ -20,6 +20,9 @@
 (*   PrunedValue   TRUE: an all-moves-pruned node returns a bounded value  *)
 (*                 (repaired); FALSE: it returns -infinity, which the      *)
 (*                 parent reads as a mate score                            *)
+(*   LimitPollOverwrites TRUE: the limit poll stores its verdict into the  *)
+(*                 flag (erasing a stop that landed after the flag was     *)
+(*                 read); FALSE (as written): it only ever sets the flag   *)
 (***************************************************************************)
 EXTENDS Integers, Sequences, FiniteSets, TLC
 
@@ -29,7 +32,7 @@ CONSTANTS MaxDepth,       \* size bound of the per-depth array (previous_moves h
           RootMoves,      \* legal moves of the root position
           SearchMoves,    \* set of possible searchmoves restrictions (subsets of RootMoves; {} = none)
           MaxGos,         \* go commands per behaviour (bounds the model)
-          ResetInGo, BestFallback, ClampDepth, TTMoveGuard, PrunedValue
+          ResetInGo, BestFallback, ClampDepth, TTMoveGuard, PrunedValue, LimitPollOverwrites
 
 NoMove == "none"
 Junk == "junk"            \* a move code that is not legal in the root (a1a1, a move of another position, ...)
@@ -95,12 +98,18 @@ LoopHead == /\ spc = "loop_head"
             /\ IF stop THEN spc' = "print_best" /\ UNCHANGED <<depth, nodes, gos>>
                ELSE spc' = "searching" /\ depth' = depth + 1 /\ nodes' = 0
             /\ UNCHANGED <<rpc, stop, best, limit, allowed, ttmove, out, stopSent, afterStop, pendReady, prevIdx, timeUp, gos>>
-\* one node visit: polls the flag and (every so often) the clock; a visit that sees the flag (or an expired clock) sets it
-NodeVisit == /\ spc = "searching" /\ nodes < NodesPerIter /\ ~stop
-             /\ nodes' = nodes + 1
-             /\ stop' = timeUp
-             /\ afterStop' = afterStop + (IF stopSent THEN 1 ELSE 0)
-             /\ UNCHANGED <<rpc, spc, best, depth, limit, allowed, ttmove, out, stopSent, pendReady, prevIdx, timeUp, gos>>
+\* one node visit is two steps of the code, `if (stop_search || check_limits())`: first the flag is read ...
+PollFlag == /\ spc = "searching" /\ nodes < NodesPerIter /\ ~stop
+            /\ spc' = "poll_limits"
+            /\ UNCHANGED <<rpc, stop, best, depth, limit, allowed, nodes, ttmove, out, stopSent, afterStop, pendReady, prevIdx, timeUp, gos>>
+\* ... then the limits are polled; a stop may land between the two.  As written the poll only ever SETS the flag;
+\* LimitPollOverwrites = TRUE models a poll that stores its verdict (and so can erase a stop that has just arrived)
+PollLimits == /\ spc = "poll_limits"
+              /\ spc' = "searching"
+              /\ nodes' = nodes + 1
+              /\ stop' = (IF LimitPollOverwrites THEN timeUp ELSE (stop \/ timeUp))
+              /\ afterStop' = afterStop + (IF stopSent /\ ~stop' THEN 1 ELSE 0)
+              /\ UNCHANGED <<rpc, best, depth, limit, allowed, ttmove, out, stopSent, pendReady, prevIdx, timeUp, gos>>
 \* the iteration ends (normally, or unwinding because the flag is set); result class chosen nondeterministically
 IterEnd(kind) ==
   /\ spc = "searching" /\ (nodes = NodesPerIter \/ stop)
@@ -117,7 +126,7 @@ PrintBest == /\ Step("print_best", "done") /\ out' = Append(out, <<"bestmove", b
              /\ UNCHANGED <<rpc, stop, best, depth, limit, allowed, nodes, ttmove, stopSent, afterStop, pendReady, prevIdx, timeUp, gos>>
 
 ResultKinds == {"cp", "mate"} \cup (IF PrunedValue THEN {} ELSE {"mate0"})
-SNext == ThreadStart \/ InitSearch \/ ResetStop \/ LoopHead \/ NodeVisit \/ (\E k \in ResultKinds : IterEnd(k)) \/ PrintBest
+SNext == ThreadStart \/ InitSearch \/ ResetStop \/ LoopHead \/ PollFlag \/ PollLimits \/ (\E k \in ResultKinds : IterEnd(k)) \/ PrintBest
 RNext == (\E dl \in DepthLimits, sm \in SearchMoves : Go(dl, sm)) \/ Stop \/ IsReady \/ ReadyOk \/ SeeBest
 Next == SNext \/ RNext \/ TimeUp \/ Poison
 Spec == Init /\ [][Next]_vars
@@ -144,7 +153,7 @@ PrevMovesIndexInBounds == prevIdx <= MaxDepth /\ depth <= MaxDepth + 1
 NoMateZero == \A i \in Infos : out[i][3] # "mate0"
 \* C06: once the stop has been delivered and seen, no new iteration is started
 NoIterationStartsAfterStop == [][ (stopSent /\ stop /\ spc = "loop_head") => spc' # "searching" ]_vars
-\* C06: promptness in steps: no node visit is performed after a delivered stop
+\* C06: promptness in steps: no node visit completes with the flag still clear after a delivered stop
 StopPrompt == afterStop = 0
 \* C06 / C09 liveness (under FairSpec): a stop, or a finite limit, is eventually answered by a bestmove
 StopAnswered == stopSent ~> (spc = "done")
